@@ -121,17 +121,29 @@ def kappa(eos: EOS, vw, vp, vm, Tp, Tm, Tn, alN, rtol=1e-10):
     # rarefaction wave behind the wall: from xi = vw down to xi = cs_b where v -> 0
     vb = lorentz_mu(vw, vm)
     if vb > 1e-14:
-        def fb(xi, y):
-            v, T, I = y
-            dv, dT = _rhs(eos, "b")(xi, [v, T])
-            return [dv, dT, xi * xi * v * v * gamma2(v) * eos.w("b", T)]
+        jouguet = abs(vm * vm - eos.csq("b", Tm)) < 1e-6  # hybrid: the wave starts at mu = c_b where d(xi)/dv = 0
+        if not jouguet:
+            def fb(xi, y):
+                v, T, I = y
+                dv, dT = _rhs(eos, "b")(xi, [v, T])
+                return [dv, dT, xi * xi * v * v * gamma2(v) * eos.w("b", T)]
 
-        def ev_small_b(xi, y):
-            return y[0] - 1e-9 * vb
+            def ev_small_b(xi, y):
+                return y[0] - 1e-9 * vb
 
-        ev_small_b.terminal = True
-        sol = solve_ivp(fb, [vw, 1e-6], [vb, Tm, 0.0], events=[ev_small_b], rtol=rtol, atol=[0, 0, 1e-30], method="DOP853")
-        parts["rarefaction"] = -float(sol.y[2, -1])  # integrating towards smaller xi
+            ev_small_b.terminal = True
+            sol = solve_ivp(fb, [vw, 1e-6], [vb, Tm, 0.0], events=[ev_small_b], rtol=rtol, atol=[0, 0, 1e-30], method="DOP853")
+            parts["rarefaction"] = -float(sol.y[2, -1])  # integrating towards smaller xi
+        else:
+            # the xi-form is singular at the start; use the fluid velocity as the independent variable there
+            def fv(v, y):
+                xi, T, I = y
+                mu = lorentz_mu(xi, v)
+                dxi = xi * gamma2(v) * (1 - v * xi) * (mu * mu / eos.csq("b", T) - 1) / (2 * v)
+                return [dxi, T * gamma2(v) * mu, xi * xi * v * v * gamma2(v) * eos.w("b", T) * dxi]
+
+            sol = solve_ivp(fv, [vb, 1e-9 * vb], [vw, Tm, 0.0], rtol=rtol, atol=[0, 0, 1e-30], method="DOP853")
+            parts["rarefaction"] = -float(sol.y[2, -1])  # xi decreases along the integration
         tot += parts["rarefaction"]
     return 4 * tot / (vw**3 * alN * wn), parts
 
